@@ -107,7 +107,10 @@ type c03Case struct {
 const customErrLevel = 13   // registered with RegWithPrintToErrorDevice
 const customPlainLevel = 14 // registered without
 
-func c03Probe1(e *slog.Entry, lvl int) (p c03Probe) {
+func c03Probe1(e *slog.Entry, lvl int) (p c03Probe) { return c03ProbeMsg(e, lvl, "probe") }
+
+// c03ProbeMsg: one record with the given message ("" at the Always severity is the blank line of Println())
+func c03ProbeMsg(e *slog.Entry, lvl int, msg string) (p c03Probe) {
 	p.Lvl = lvl
 	events = nil
 	stdDelta()
@@ -117,7 +120,7 @@ func c03Probe1(e *slog.Entry, lvl int) (p c03Probe) {
 				p.Panic = fmt.Sprint(r)
 			}
 		}()
-		e.LogAttrs(nil, slog.Level(lvl), "probe", "k", 1)
+		e.LogAttrs(nil, slog.Level(lvl), msg, "k", 1)
 	}()
 	out, errb := stdDelta()
 	var payload []byte
@@ -133,6 +136,9 @@ func c03Probe1(e *slog.Entry, lvl int) (p c03Probe) {
 	}
 	p.Evs = events
 	isRecord := func(b []byte) bool {
+		if msg == "" {
+			return string(b) == "\n"
+		}
 		return bytes.Count(b, []byte("probe")) == 1 && bytes.HasSuffix(b, []byte("\n")) && (payload == nil || bytes.Equal(payload, b))
 	}
 	// package defaults: os.Stdout / os.Stderr (their position among the members is taken from the configuration view)
@@ -233,6 +239,24 @@ func c03One(r *Run, snap *slog.VerifRegistry, ops []WOp, asOptions bool, kind st
 		}
 		probes = append(probes, fmt.Sprintf("(%s, %s, %s)", cZ(int64(lvl)), cInts(p.Dest), cInts(p.Told)))
 	}
+	// the blank line (Println() / an empty Always message) is a write like any other: same destinations as an
+	// Always record, level-settable destinations told first (direct oracle only)
+	if bp := c03ProbeMsg(e, 8, ""); bp.Panic != "" {
+		r.Fail("C03/panic-in-log-call", "blank line: "+bp.Panic, c)
+	} else {
+		exp := stdLast(spec.route(errdev, 8))
+		var want []int
+		for _, w := range exp {
+			if levelSettable[w] {
+				want = append(want, w)
+			}
+		}
+		if fmt.Sprint(bp.Dest) != fmt.Sprint(append([]int{}, exp...)) {
+			r.Fail("C03/routing-blank-line", fmt.Sprintf("blank line at the Always severity: written to %v, the configuration denotes %v", bp.Dest, exp), c)
+		} else if fmt.Sprint(bp.Told) != fmt.Sprint(append([]int{}, want...)) {
+			r.Fail("C03/level-not-told", fmt.Sprintf("blank line at the Always severity: destinations %v, told the level right before the write: %v, expected %v", bp.Dest, bp.Told, want), c)
+		}
+	}
 	var oc []string
 	nt := false
 	seenAdd := false
@@ -256,7 +280,7 @@ func runC03(r *Run) {
 	snap := slog.VerifSnapshot()
 	captureStd(r.Out)
 	r.Coq("Require Import Verif.Model.Base Verif.Model.Writers Verif.Corr.C03.", "case", "ok")
-	r.Rule = "random sequences (length 0..12) of the 11 writer operations over a pool of 6 writers (2 LogWriters, 2 LevelSettable), as methods and as New(...) options, each followed by a probe record at 10 severities (normal, error class, leveled, registered error-device level, registered plain level, Off); thorough adds every sequence of length <= 3 over 11 ops x 3 writers; non-trivial = a remove/reset after an add/set; distinct by op list"
+	r.Rule = "random sequences (length 0..12) of the 11 writer operations over a pool of 6 writers (2 LogWriters, 2 LevelSettable), as methods and as New(...) options, each followed by a probe record at 10 severities (normal, error class, leveled, registered error-device level, registered plain level, Off) and by a blank line (empty Always message; direct oracle only); thorough adds every sequence of length <= 3 over 11 ops x 3 writers; non-trivial = a remove/reset after an add/set; distinct by op list"
 	for i := r.N(300, 6000); i > 0; i-- {
 		n := r.R.Intn(13)
 		asOpt := r.R.Chance(30)
